@@ -34,15 +34,15 @@ def interruptHolder (s : S) : S :=
   | none => s
 
 def offTail (s1 : S) : S :=
-  (({ s1 with link := .pending, readConn := false, big := none, peek := [] } : S).releasePing (mkErr ["break"])).breakAll
+  (({ s1 with link := .pending, readConn := false, big := none, peek := [], online := false } : S).releasePing (mkErr ["break"])).breakAll
 
 theorem toOffline_eq (s : S) : s.toOffline =
     if s.link == .closed then { s with readConn := false, big := none, peek := [] } else offTail (interruptHolder s.closeConn) := rfl
 
 theorem offTail_rd (s1 : S) : (offTail s1).readConn = false ∧ (offTail s1).big = none ∧ (offTail s1).link = .pending := by
   unfold offTail
-  obtain ⟨a, b, c⟩ := breakAll_rd (({ s1 with link := .pending, readConn := false, big := none, peek := [] } : S).releasePing (mkErr ["break"]))
-  obtain ⟨a', b', c'⟩ := releasePing_rd ({ s1 with link := .pending, readConn := false, big := none, peek := [] } : S) (mkErr ["break"])
+  obtain ⟨a, b, c⟩ := breakAll_rd (({ s1 with link := .pending, readConn := false, big := none, peek := [], online := false } : S).releasePing (mkErr ["break"]))
+  obtain ⟨a', b', c'⟩ := releasePing_rd ({ s1 with link := .pending, readConn := false, big := none, peek := [], online := false } : S) (mkErr ["break"])
   exact ⟨a.trans a', b.trans b', c.trans c'⟩
 
 theorem readAllLoop_failed_error (fuel : Nat) (rd : Rd) (size : Nat) (acc : Bytes) :
